@@ -63,23 +63,23 @@ type lcClient struct {
 }
 
 type lcRun struct {
-	w        *lcWorld
-	cfg      int
-	srv      *server.Server
-	lis      *memListener
-	cancel   context.CancelFunc
-	clients  map[int]*lcClient
-	release  chan struct{}
-	unhold   chan struct{}
-	serveRet chan struct{}
-	stopped  bool // serve has been told to stop (cancel or shutdown)
-	sdAsync  bool
-	sdSeen   int // evSdReturn events before the asynchronous Shutdown was started
+	w         *lcWorld
+	cfg       int
+	srv       *server.Server
+	lis       *memListener
+	cancel    context.CancelFunc
+	clients   map[int]*lcClient
+	release   chan struct{}
+	unhold    chan struct{}
+	serveRet  chan struct{}
+	stopped   bool // serve has been told to stop (cancel or shutdown)
+	sdAsync   bool
+	sdSeen    int // evSdReturn events before the asynchronous Shutdown was started
 	cancelled bool
-	inbound  int
-	refused  int
-	escaped  int
-	sdCode   int
+	inbound   int
+	refused   int
+	escaped   int
+	sdCode    int
 }
 
 func (r *lcRun) onAccept() bool { return r.cfg&4 != 0 }
@@ -141,6 +141,7 @@ func runLifecycle(cfg int, script []lcOp) (events []lcEvent, extra [3]int, summa
 	r.lis = &memListener{w: w}
 	ctx, cancel := context.WithCancel(context.Background())
 	r.cancel = cancel
+	w.cancelFn = cancel
 	defer cancel()
 	s := &server.Server{ReadTimeout: 10 * time.Millisecond}
 	r.srv = s
@@ -383,14 +384,7 @@ func (r *lcRun) step(o lcOp) {
 				if r.onAccept() {
 					c.cancelMe = true
 				} else {
-					c.addrHook = func(call int) {
-						if call == 1 {
-							w.mu.Lock()
-							r.cancel()
-							w.logLocked(lcEvent{code: evCancel, script: true})
-							w.mu.Unlock()
-						}
-					}
+					c.cancelAtAccept = true
 				}
 			case opConnectHeld:
 				c.addrHook = func(call int) {
@@ -682,8 +676,9 @@ func (r *lcRun) finale() {
 // canonLog makes the emitted log independent of the order in which concurrently finishing
 // connection goroutines were scheduled: between two events of the script thread, and if no accept
 // happens in between (the only cross-connection data flow is the counter read by the accept
-// callback), the events of different connections are independent in the LTS; they are grouped by
-// connection, keeping each connection's own order.  Events without a connection keep their place
+// callback) and no Shutdown is running (it holds the mutex the connections need to untrack), the
+// events of different connections are independent in the LTS; they are grouped by connection,
+// keeping each connection's own order.  Events without a connection keep their place
 // relative to each other and come first.
 func canonLog(evs []lcEvent) []lcEvent {
 	var out []lcEvent
@@ -707,11 +702,21 @@ func canonLog(evs []lcEvent) []lcEvent {
 		out = append(out, seg...)
 	}
 	var seg []lcEvent
+	inShutdown := false // Shutdown holds the mutex: its visits and the connections' untracking are ordered
 	for _, e := range evs {
 		if e.script || e.code == evSdReturn {
-			flush(seg)
+			if inShutdown {
+				out = append(out, seg...)
+			} else {
+				flush(seg)
+			}
 			seg = nil
 			out = append(out, e)
+			if e.code == evSdCall {
+				inShutdown = true
+			} else if e.code == evSdReturn {
+				inShutdown = false
+			}
 			continue
 		}
 		seg = append(seg, e)
